@@ -683,6 +683,25 @@ def r9(ctx, rep):
     fmts = [lit_val(m["a"][0]) for m in macros(tf[0]["body"], "format") if m.get("a")]
     wild = [x for x in fmts if isinstance(x, str) and ".." in x]
     rep.check(wild == ["..{}"], "type:wildcard", f"a tuple wildcard with a type is read as `..T` (Range token, then the type); it is printed with format {wild}", file=tf[0]["file"], line=tf[0]["l"], fn=tf[0]["path"])
+    # (a') a field without a type: the parser reads the control character `c` of `ctrl('c').to(None)` in the tuple-field alternative; the writer must print that character
+    tp = [x for x in syn.fns if x["crate"] == "prqlc_parser" and x["file"].endswith("parser/types.rs") and "body" in x]
+    untyped = set()
+    for x in tp:
+        for n in walk(x["body"]):
+            if n.get("k") == "mcall" and n["m"] == "to" and n["a"] and show(n["a"][0]) == "None" and n["r"].get("k") == "call" and last_seg(show(n["r"]["f"])) == "ctrl":
+                untyped.add(lit_val(n["r"]["a"][0]))
+    single = None
+    for m_ in matches_of(tf[0]["body"]):
+        for arm in m_["arms"]:
+            if last_seg(str(pat_head(arm["pat"]))) == "Single":
+                single = arm
+    written = set()
+    if single is not None:
+        for n in walk(single["body"]):
+            if n.get("k") == "if" and n["c"].get("k") == "let" and "Some" in show(n["c"]["pat"]) and n.get("e") is not None:
+                written |= {v for v in strs(n["e"]) if v.strip()}
+    rep.check(len(untyped) == 1 and written == untyped, "type:untyped-field", f"a tuple type field without a type is read as {sorted(untyped)} (`ctrl(..).to(None)` in parser/types.rs) and printed as {sorted(written)}",
+              file=tf[0]["file"], line=tf[0]["l"], fn=tf[0]["path"])
     # (b) VarDef: every arm that does not print the type annotation is unreachable when there is one
     sw = [x for x in syn.find_fns("<Stmt as WriteSource>::write", crate="prqlc") if x["file"].endswith("codegen/ast.rs")]
     if len(sw) != 1:
@@ -817,6 +836,69 @@ def r11(ctx, rep):
     rep.check(set(seen) == set(want), "arms", f"expected arms for {sorted(want)} in ExprKind::write, found {sorted(seen)}", file=f["file"], line=f["l"], fn=f["path"])
 
 
+def r12(ctx, rep):
+    rep.rule("C14.R12", "text taken from the syntax tree (a name) is written through write_ident_part; a bare variable given to the line writer is the output of another writer", floor=8)
+    import guards
+    syn = ctx.syn
+    n_sites = 0
+    for f in syn.fns:
+        if f["crate"] != "prqlc" or "/codegen/" not in f["file"] or "body" not in f:
+            continue
+        par = guards.parents(f["body"])
+        prm = [show(x.get("pat", x)).split(":")[0].strip() if isinstance(x, dict) and "pat" in x else (x.get("name") if isinstance(x, dict) else str(x).split(":")[0].strip()) for x in f.get("params", [])]
+        for n in walk(f["body"]):
+            if not (n.get("k") == "mcall" and n["m"] == "consume" and n["a"]):
+                continue
+            a = n["a"][0]
+            while a.get("k") in ("ref", "paren"):
+                a = a["e"]
+            if a.get("k") != "path" or "::" in a["p"]:
+                continue
+            n_sites += 1
+            d = guards.visible_def_nodes(par, n, a["p"])
+            if d is not None and d.get("init") is not None:
+                init = show(d["init"], maxdepth=6)
+                ok = bool(re.search(r"write_within\(|\.write\(|\.write_between\(|write_ident_part\(|display_|\.to_string\(\)|format!", init))
+                why = f"bound to `{init[:60]}`"
+            elif a["p"] in prm:
+                ok, why = True, "a parameter of the writer (prefix / suffix text)"
+            else:
+                ok, why = False, "bound by a pattern over the syntax tree (a loop or closure variable)"
+            rep.check(ok, f"raw-name:{f['name']}:{a['p']}", f"`{show(n, maxdepth=4)}` in {f['path']} writes `{a['p']}`, {why}: a name that is not a plain identifier (`my arg`, a keyword) must be "
+                      "written in backticks by write_ident_part, otherwise the formatted program does not parse or means something else", file=f["file"], line=n["l"], fn=f["path"])
+    rep.check(n_sites >= 8, "sites", f"expected >= 8 bare variables handed to `consume` in codegen, found {n_sites}")
+
+
+def r13(ctx, rep):
+    rep.rule("C14.R13", "a writer that prints the parts of an expression instead of the expression itself does so only when the expression carries no alias", floor=1)
+    syn = ctx.syn
+    n = 0
+    for f in syn.fns:
+        if f["crate"] != "prqlc" or "/codegen/" not in f["file"] or "body" not in f:
+            continue
+        if "ExprKind" in (f.get("self_short") or "") or (f.get("self_short") == "Expr"):
+            continue        # the writers of Expr / ExprKind themselves: Expr::write prints the alias, then delegates to the kind
+        for m_ in matches_of(f["body"]):
+            sc = show(m_["e"])
+            mm = re.match(r"^&?(\w+)\.kind$", sc)
+            if not mm:
+                continue
+            v = mm.group(1)
+            for arm in m_["arms"]:
+                h = pat_head(arm["pat"])
+                if not isinstance(h, str) or h == "_" or "ExprKind" not in h:
+                    continue
+                body_txt = show_stmts(arm["body"], maxdepth=12) if arm["body"].get("k") == "block" else show(arm["body"], maxdepth=12)
+                if re.search(r"\b" + v + r"\.write(_between)?\(", body_txt):
+                    continue        # the whole expression is written
+                n += 1
+                g = show(arm["guard"]) if arm.get("guard") is not None else ""
+                rep.check(f"{v}.alias.is_none()" in g, f"parts-only-without-alias:{f['name']}:{last_seg(h)}", f"the `{last_seg(h)}` arm of `match {sc}` in {f['path']} writes the parts of `{v}` without "
+                          f"calling `{v}.write`: `{v}.alias` is then dropped (`x = (from a | take 3)` was formatted as `from a` / `take 3`); the arm must be guarded by `{v}.alias.is_none()`",
+                          file=f["file"], line=arm["l"], fn=f["path"])
+    rep.check(n >= 1, "sites", f"expected the Main/Into arm of Stmt::write that unwraps a pipeline into lines, found {n} such arm(s)")
+
+
 def run(ctx, rep):
-    for r in (r1, r2, r3, r4, r5, r7, r8, r9, r10, r11):
+    for r in (r1, r2, r3, r4, r5, r7, r8, r9, r10, r11, r12, r13):
         rep.guard(r, ctx)
